@@ -662,3 +662,95 @@ def register_stateful_loop(R, prop):
         ensures=_only(prop, ensures),
         replayable=False,
     )
+
+# ------------------------------------------------------------------------------------------------ stateful.execute (the consumer of the state-machine thread's events)
+SFL = ENG + ".phases.stateful:"
+
+
+def _stateful_event():
+    """An arbitrary event the state-machine thread may put on the queue (execute_state_machine_loop's contract)."""
+    St = EnumOf(STATUS)
+    Ph = Opq("PhaseName")
+    return OneOf(
+        Obj(EV + "SuiteStarted", id=Opq("UUID"), phase=Ph),
+        Obj(EV + "SuiteFinished", id=Opq("UUID"), phase=Ph, status=St),
+        Obj(EV + "ScenarioStarted", id=Opq("UUID"), phase=Ph, suite_id=Opq("UUID"), label=NoneT),
+        Obj(EV + "ScenarioFinished", id=Opq("UUID"), phase=Ph, suite_id=Opq("UUID"), label=NoneT, status=St, recorder=Opq("Recorder"), elapsed_time=Real, skip_reason=Opt(Str), is_final=Bool),
+        Obj(EV + "NonFatalError", id=Opq("UUID"), phase=Ph, label=Str, related_to_operation=Bool, value=Opq("Exc")),
+    )
+
+
+def register_stateful_execute(R, prop):
+    from pyvc.values import VObj
+
+    R.opaque_classes.update({"StatefulQueue": "spec:StatefulQueue", "MachineThread": "spec:MachineThread"})
+    R.exception_classes["Empty"] = "Exception"
+    _prev_queue = R.extern.get("queue.Queue")
+    R.extern["queue.Queue"] = lambda it, a, k: (fresh_opaque(it, "StatefulQueue") if getattr(it.top_contract, "target", "").endswith("phases.stateful:execute") or _prev_queue is None
+                                                 else _prev_queue(it, a, k))
+    R.extern["queue.Empty"] = lambda it, a, k: it.resolve_exc_class("Empty", None)
+
+    def _thread(it, a, k):
+        t = VObj(it.resolve_class("spec:MachineThread"), {"target": k.get("target"), "kwargs": k.get("kwargs")})
+        it.ghost["thread"] = t
+        return t
+
+    R.extern["threading.Thread"] = _thread
+    R.nominal_methods["spec:MachineThread"] = {
+        "start": lambda it, obj, a, k: it.ghost.__setitem__("started", it.ghost["started"] + 1),
+        "join": lambda it, obj, a, k: it.ghost.__setitem__("joined", it.ghost["joined"] + 1),
+        "is_alive": lambda it, obj, a, k: it.abstract_call(R.contracts["spec:thread_alive"], "spec:thread_alive", [obj], {}, None),
+    }
+    R.contract("spec:thread_alive", args={"thread": Opq("Any")}, returns=Bool, trusted=True, effects={"alive_answer": "result"}, note="E5: Thread.is_alive at the time of the call")
+    R.contract("spec:StatefulQueue.get", args={"self": Opq("StatefulQueue"), "timeout": Real}, returns=_stateful_event(), raises=["Empty", "KeyboardInterrupt"], trusted=True,
+               note="E5: blocking get with timeout: an event put by the state-machine thread, queue.Empty, or KeyboardInterrupt delivered while blocked",
+               effects={"last_get": "'event' if raised is None else raised", "got": "ghost('got') + (1 if raised is None else 0)",
+                        "pending": "1 if raised is None else ghost('pending')", "last_event": "result if raised is None else ghost('last_event')"})
+    R.nominal_methods["spec:StatefulSchema"] = {"as_state_machine": lambda it, obj, a, k: it.abstract_call(R.contracts["spec:as_state_machine"], "spec:as_state_machine", [obj], {}, None)}
+    R.contract("spec:as_state_machine", args={"schema": Opq("Any")}, returns=Opq("StateMachineClass"), raises=["InvalidStateMachine", "RuntimeError"], trusted=True,
+               effects={"machine_error": "raised"}, note="builds the state machine from the links (C07 / C10 contracts); invalid links are reported here")
+    R.exception_classes.setdefault("InvalidStateMachine", "schemathesis.core.errors:InvalidStateMachine")
+    FWD = "(ghost('pending') == 1 and event is ghost('last_event'))"
+    yield_effect = {
+        # 0 -(forwarded event)*-> 0 -Interrupted(own)-> 1 ; 0|1 -PhaseFinished-> 2   (creation failure: 0 -NonFatalError(own)-> 3 -PhaseFinished-> 2)
+        "dfa": "(0 if ghost('dfa') == 0 and " + FWD + " else "
+               "(1 if ghost('dfa') == 0 and is_instance(event, 'Interrupted') else "
+               "(3 if ghost('dfa') == 0 and is_instance(event, 'NonFatalError') and ghost('got') == 0 else "
+               "(2 if ghost('dfa') in (0, 1, 3) and is_instance(event, 'PhaseFinished') else -1))))",
+        "worst": "(max(ghost('worst'), rank(event.status)) if is_instance(event, 'SuiteFinished') and event.status.name != 'SKIP' and " + FWD + " else ghost('worst'))",
+        "forwarded": "ghost('forwarded') + (1 if " + FWD + " else 0)",
+        "pending": "0 if " + FWD + " else ghost('pending')",
+    }
+    inv = {
+        "index": "i",
+        "modifies": {"status": OneOf(NoneT, EnumOf(STATUS)), "is_executed": Bool, "event": Opq("Any"), "engine.control.stop_event.flag": Bool,
+                     "ghost:dfa": Int, "ghost:worst": IntRange(-1, 4), "ghost:forwarded": IntRange(0, None), "ghost:got": IntRange(0, None), "ghost:last_get": Str, "ghost:pending": Const(0),
+                     "ghost:last_event": Opq("Any"), "ghost:alive_answer": OneOf(NoneT, Bool)},
+        "clauses": ["ghost('dfa') == 0", "ghost('forwarded') == ghost('got')", "rank(status) >= ghost('worst')", "iff(is_executed, ghost('got') > 0)",
+                    "implies(status is not None, status.name != 'SKIP')", "ghost('joined') == 0 and ghost('started') == 1"],
+    }
+    ensures = {
+        "C11_one_phase_finished_last_for_this_phase": "ghost('dfa') == 2 and is_instance(result[-1], 'PhaseFinished') and result[-1].phase is phase",
+        "C11_every_event_of_the_thread_is_forwarded_once_in_order": "ghost('forwarded') == ghost('got')",
+        # "a phase is at least as bad as its worst scenario" (suites fold their scenarios: execute_state_machine_loop's contract)
+        "C05_phase_status_at_least_the_worst_suite": "rank(result[-1].status) >= ghost('worst') or (result[-1].status.name == 'SKIP' and ghost('worst') == -1)",
+        "C05_state_machine_errors_are_reported_and_fail_the_phase": "implies(ghost('machine_error') is not None, length(result) == 2 and is_instance(result[0], 'NonFatalError') and result[-1].status.name == 'ERROR')",
+        "C05_gives_up_on_an_empty_queue_only_when_the_thread_is_dead": "implies(ghost('last_get') == 'Empty', ghost('alive_answer') is False)",
+        "C05_nothing_executed_is_reported_as_skip": "implies(ghost('machine_error') is None and ghost('got') == 0 and ghost('last_get') != 'KeyboardInterrupt', "
+                                                    "result[-1].status.name == 'SKIP' and phase.skip_reason is not None and phase.skip_reason.name == 'NOTHING_TO_TEST')",
+        "C12_interrupt_stops_the_engine_and_is_reported": "implies(ghost('last_get') == 'KeyboardInterrupt', engine.control.stop_event.flag is True and is_instance(result[-2], 'Interrupted'))",
+        "C11_the_thread_is_started_once_and_always_joined": "implies(ghost('machine_error') is None, ghost('started') == 1 and ghost('joined') == 1)",
+        "C13_the_thread_runs_the_loop_with_this_engine_and_machine": "implies(ghost('machine_error') is None, ghost('thread').kwargs['engine'] is engine)",
+    }
+    R.contract(
+        SFL + "execute",
+        prop=prop,
+        args={"engine": Engine(abstract_limit=True, schema=Obj("spec:StatefulSchema")), "phase": Obj(PHASES + "Phase", name=EnumOf(PHASES + "PhaseName", ["STATEFUL_TESTING"]), is_supported=Bool, is_enabled=Bool, skip_reason=NoneT)},
+        ghost={"dfa": 0, "worst": -1, "forwarded": 0, "got": 0, "last_get": "none", "pending": 0, "last_event": None, "thread": None, "started": 0, "joined": 0, "alive_answer": None, "machine_error": None},
+        yield_effect=yield_effect,
+        invariants={0: inv},
+        ensures=_only(prop, ensures),
+        raises=[],
+        max_paths=20000,
+        replayable=False,
+    )
